@@ -78,6 +78,40 @@ def surface_bound_violations(surfaces):
     return bad
 
 
+def json_at(wj, key):
+    """the JSON value a surface key such as features/0/temperature_models/1/max_depth refers to"""
+    o = wj
+    for tok in key.split("/"):
+        if isinstance(o, list):
+            o = o[int(tok)]
+        elif isinstance(o, dict):
+            o = o.get(tok.replace("_", " "))
+        else:
+            return None
+        if o is None:
+            return None
+    return o
+
+
+# the depth surfaces (triangles, kd nodes, extrema, constness) are data the model takes from the implementation; what the
+# model assumes about them is checked here for every world of every check and reported by lib/check.py
+SURFACE_TIE = []
+
+
+def surface_tie_violations(wj, surfaces):
+    out = []
+    for (key, mn, mx, lo, hi) in surface_bound_violations(surfaces):
+        out.append(("the extrema [%g, %g] used by the depth pre-test of %s do not contain the nodal values [%g, %g] of its "
+                    "triangulation: the pre-test rejects depths the local surface accepts" % (mn, mx, key, lo, hi),
+                    {"kind": "world", "world": wj, "surface": key, "probe_line": "surfaces 0"}))
+    for key, sv in (surfaces or {}).items():
+        v = json_at(wj, key)
+        if isinstance(v, list) and any(isinstance(e, list) and len(e) == 2 for e in v) and sv["const"]:
+            out.append(("the points listed for %s are ignored: the implementation treats the surface as the constant %g" % (key, sv["min"]),
+                        {"kind": "world", "world": wj, "surface": key, "probe_line": "surfaces 0"}))
+    return out
+
+
 class CaseSet:
     def __init__(self, tag):
         self.dir = os.path.join(common.WORK, "cases", "%s_%d" % (tag, os.getpid()))
@@ -108,6 +142,7 @@ class CaseSet:
             else:
                 for b in surface_bound_violations(surfaces):
                     self.surface_bounds.append((wj,) + b)
+                SURFACE_TIE.extend(surface_tie_violations(wj, surfaces))
         el = Elab(wj, surfaces)
         term = el.world() if model else None
         ok = model and el.unsupported is None
